@@ -411,8 +411,11 @@ pub(super) fn derive_schema(input: TokenStream) -> syn::Result<TokenStream> {
 
                     (Some(t), None, _) => {/* Internally tagged */
                         let t = LitStr::new(t, Span::call_site());
+                        /* the content of a newtype variant is taken inline as `Schema<any>`: view it as the object it has to be */
                         quote! {
-                            #schema
+                            ::ohkami::openapi::schema::Schema::<::ohkami::openapi::schema::Type::object>::from(
+                                ::ohkami::openapi::schema::RawSchema::from(#schema)
+                            )
                                 .property(#t, ::ohkami::openapi::string().enumerates([#tag]))
                         }
                     }
